@@ -29,6 +29,8 @@ struct SeenArg {
     const void* addr = 0;  // object address as seen through the parameter
     const void* owner = 0; // shared_ptr flavours: a copy's raw pointer
     long use_count = 0;
+    int probe = -1; // virtual_ptr flavours: the class a call made *through
+                    // the pointer the definition received* dispatches on
 };
 
 struct BodyRec {
@@ -210,7 +212,8 @@ using method_menu = L<
     L<n_m1, k_ref>, L<n_m1, k_ptr>, L<n_m1, k_sp>, L<n_m1, k_csp>,
     L<n_m1, k_vp>, L<n_m1, k_vsp>, L<n_m1, k_cvsp>, L<n_m1x, k_ref>,
     L<n_m1x, k_vp>, L<n_m1v, k_ref>, L<n_m1v, k_ptr>, L<n_m1v, k_sp>,
-    L<n_m1v, k_vp>, L<n_m1v, k_vsp>, L<n_m2, k_ref>, L<n_m2, k_vp>,
+    L<n_m1v, k_vp>, L<n_m1v, k_vsp>, L<n_m1v, k_csp>, L<n_m1v, k_cvsp>,
+    L<n_m2, k_ref>, L<n_m2, k_vp>,
     L<n_m2, k_vsp>, L<n_m2, k_mixed>, L<n_m2i, k_ref>, L<n_m2i, k_vp>,
     L<n_m3, k_ref>, L<n_m3, k_vp>>;
 
@@ -270,6 +273,47 @@ using method_t = typename method_from<
     P, N, K,
     params_t<P, K, typename N::sig, sig_classes<typename N::sig>, true>>::type;
 
+// Probes: uni-methods with one definition per class, called from inside the
+// definition bodies through the virtual_ptr they received; the definition
+// returns the index of its class.  (Set up per policy by the engine.)
+template<class P>
+struct Probes {
+    static inline int (*plain_a)(virtual_ptr<A, P>) = nullptr;
+    static inline int (*plain_x)(virtual_ptr<X, P>) = nullptr;
+    static inline int (*plain_vr)(virtual_ptr<VR, P>) = nullptr;
+    static inline int (*shared_a)(const virtual_shared_ptr<A, P>&) = nullptr;
+    static inline int (*shared_x)(const virtual_shared_ptr<X, P>&) = nullptr;
+    static inline int (*shared_vr)(const virtual_shared_ptr<VR, P>&) = nullptr;
+    static inline bool enabled = false;
+
+    template<class T>
+    static int plain(const virtual_ptr<T, P>& p) {
+        if (!enabled) {
+            return -1;
+        }
+        if constexpr (std::is_base_of_v<A, T>) {
+            return plain_a(p);
+        } else if constexpr (std::is_base_of_v<X, T>) {
+            return plain_x(p);
+        } else {
+            return plain_vr(p);
+        }
+    }
+    template<class T>
+    static int shared(const virtual_shared_ptr<T, P>& p) {
+        if (!enabled) {
+            return -1;
+        }
+        if constexpr (std::is_base_of_v<A, T>) {
+            return shared_a(virtual_shared_ptr<A, P>(p));
+        } else if constexpr (std::is_base_of_v<X, T>) {
+            return shared_x(virtual_shared_ptr<X, P>(p));
+        } else {
+            return shared_vr(virtual_shared_ptr<VR, P>(p));
+        }
+    }
+};
+
 // recording what a body sees
 inline void see(BodyRec& r, int v) {
     SeenArg s;
@@ -304,9 +348,12 @@ void see(BodyRec& r, const virtual_ptr<T, P>& p) {
     if constexpr (std::is_class_v<T> && std::is_polymorphic_v<T>) {
         SeenArg s;
         s.addr = p.get();
+        s.probe = Probes<P>::template plain<T>(p);
         r.args.push_back(s);
     } else {
         see(r, p.get()); // virtual_shared_ptr: the boxed shared_ptr
+        r.args.back().probe =
+            Probes<P>::template shared<typename T::element_type>(p);
     }
 }
 
@@ -832,7 +879,100 @@ struct Engine {
         return *p;
     }
 
+    // ---- probes -------------------------------------------------------------
+    std::vector<std::pair<int, detail::definition_info*>> probe_defs;
+    std::vector<detail::definition_info*> live_probe_defs;
+
+    // the probe definitions of the classes registered now
+    template<class Pred>
+    void register_probe_defs(Pred registered) {
+        for (auto& [cls, di] : probe_defs) {
+            bool live = std::find(live_probe_defs.begin(),
+                                  live_probe_defs.end(),
+                                  di) != live_probe_defs.end();
+            if (registered(cls) && !live) {
+                di->method->specs.push_back(*di);
+                live_probe_defs.push_back(di);
+            }
+        }
+    }
+
+    void clear_probe_defs() {
+        for (auto di : live_probe_defs) {
+            di->method->specs.remove(*di);
+        }
+        live_probe_defs.clear();
+    }
+
+    template<class Root, bool Shared>
+    struct probe_key {};
+
+    template<class Root>
+    using plain_probe = method<
+        probe_key<Root, false>, int(virtual_ptr<Root, P>), P>;
+    template<class Root>
+    using shared_probe = method<
+        probe_key<Root, true>, int(const virtual_shared_ptr<Root, P>&), P>;
+
+    template<class T>
+    static int plain_probe_def(virtual_ptr<T, P>) {
+        return index_of<T>;
+    }
+    template<class T>
+    static int shared_probe_def(const virtual_shared_ptr<T, P>&) {
+        return index_of<T>;
+    }
+
+    template<class Root>
+    void add_probes() {
+        mp::mp_for_each<mp::mp_transform<mp::mp_identity, classes>>(
+            [&](auto tag) {
+                using T = typename decltype(tag)::type;
+                if constexpr (std::is_base_of_v<Root, T>) {
+                    // registered through the real add_function, then taken
+                    // out of the catalog: live only while T is registered
+                    auto detach = [&](detail::method_info& mi) {
+                        detail::definition_info* last = nullptr;
+                        for (auto& di : mi.specs) {
+                            last = &di;
+                        }
+                        mi.specs.remove(*last);
+                        probe_defs.push_back({index_of<T>, last});
+                    };
+                    static typename plain_probe<Root>::template add_function<
+                        plain_probe_def<T>>
+                        a;
+                    detach(plain_probe<Root>::fn);
+                    static typename shared_probe<Root>::template add_function<
+                        shared_probe_def<T>>
+                        b;
+                    detach(shared_probe<Root>::fn);
+                }
+            });
+    }
+
     Engine() {
+        add_probes<A>();
+        add_probes<X>();
+        add_probes<VR>();
+        Probes<P>::plain_a = [](virtual_ptr<A, P> p) {
+            return plain_probe<A>::fn(p);
+        };
+        Probes<P>::plain_x = [](virtual_ptr<X, P> p) {
+            return plain_probe<X>::fn(p);
+        };
+        Probes<P>::plain_vr = [](virtual_ptr<VR, P> p) {
+            return plain_probe<VR>::fn(p);
+        };
+        Probes<P>::shared_a = [](const virtual_shared_ptr<A, P>& p) {
+            return shared_probe<A>::fn(p);
+        };
+        Probes<P>::shared_x = [](const virtual_shared_ptr<X, P>& p) {
+            return shared_probe<X>::fn(p);
+        };
+        Probes<P>::shared_vr = [](const virtual_shared_ptr<VR, P>& p) {
+            return shared_probe<VR>::fn(p);
+        };
         mp::mp_for_each<mp::mp_transform<mp::mp_identity, method_menu>>(
             [&](auto pair) {
                 using Pair = typename decltype(pair)::type;
